@@ -323,8 +323,8 @@ def work(item, opts):
 
 def check(prop, tier, seed):
     rep = Report(prop, tier, seed)
-    chunks = 16 if tier == "quick" else 64
-    n_rand = 40 if tier == "quick" else 600
+    chunks = 16 if tier == "quick" else 128
+    n_rand = 40 if tier == "quick" else 1500
     items = [{"seed": f"{seed}/{k}", "n": n_rand, "fixed": k == 0, "perm_n": 5 if tier == "quick" else 6} for k in range(chunks)]
     res = runner.run_parallel("pvmon.props.c13", "work", items, {}, batch=1)
     counts = {}
